@@ -3,4 +3,5 @@ CONSTANTS
   Gen = "ops1"
   NumRandom = 100
   MaxDepth = 4
+  Small = FALSE
 CHECK_DEADLOCK FALSE
